@@ -101,3 +101,55 @@ GRIDS = {
     "two": [0, F(1, 4), 1],
     "fine": [0, F(1, 8), F(1, 4), F(1, 2), 1, 2, 3],
 }
+
+
+def run_consumers(rep, tier, seed, what, label):
+    """C12 / C13 wiring: the posterior returned by the real solvers (tracing SSM) is consumed by the real evaluate_lml /
+    sample code; TLC checks which terms were scored / sampled and exports the exact loss value."""
+    import jax
+
+    solvers = ["solver", "mle", "dynamic"] if tier == "quick" else ["solver", "mle", "mle_nocorr", "dynamic", "dynamic_relin"]
+    items = []
+    for g in (["nonuniform"] if tier == "quick" else ["nonuniform", "uniform5", "two"]):
+        for sv in solvers:
+            items.append((grid_cfg(GRIDS[g], g), sv, "fixedinterval", sv == "mle", "fixed_grid", [None]))
+    cfg = l0.make_config("ties", "flat", "I_1", False, 1, max_att=8)
+    res, behs = behaviours(cfg, 2 if tier == "quick" else 8, seed)
+    rep.states += res.distinct
+    rep.transitions += res.generated
+    for sv in solvers[: 2 if tier == "quick" else None]:
+        items.append((cfg, sv, "fixedpoint", False, "save_at", behs))
+    traces, meta = [], []
+    for j, (cfg_, sv, strat, initc, mode, bs) in enumerate(items):
+        runner = l1.L1Runner(cfg_, sv, strat, initc, mode)
+        for b in bs:
+            if what == "lml":
+                cons = [dict(what="lml", tcoeff_index=j % 3, average=bool(j % 2))]
+            else:
+                cons = [dict(what="sample", key=jax.random.PRNGKey(seed + j))]
+            tr, _sol = runner.run(b, consumers=cons)
+            traces.append(tr)
+            meta.append((cfg_["_name"], sv, strat, mode, cons[0], list(runner.consumed)))
+    for start in range(0, len(traces), 10):
+        chunk = traces[start:start + 10]
+        ver, res = l1.validate(chunk)
+        rep.states += res.distinct
+        rep.transitions += res.generated
+        for local, (tr, v) in enumerate(zip(chunk, ver)):
+            name, sv, strat, mode, cons, consumed = meta[start + local]
+            rep.traces += 1
+            rep.add_case((label, name, sv, strat, repr(tr["hdr"]["steps"]), repr(cons)))
+            if not v["ok"]:
+                at = v["at"] - 1
+                rep.violation(f"impl:{label}:{mode}:{strat}:{sv}:{why_class(v['why'])}", f"{name}: trace rejected at event {at}: {v['why']}",
+                              {"header": tr["hdr"], "rejected_at": at, "last_events": tr["ev"][max(0, at - 5): at]})
+                continue
+            if what == "lml":
+                exp = res.lml.get(local + 1, [])
+                if not exp:
+                    rep.violation(f"impl:{label}:{mode}:{strat}:{sv}:no-lml-export", f"{name}: TLC exported no loss value", {})
+                    continue
+                want = -exp[-1]["sumids"] / exp[-1]["n"] if exp[-1]["avg"] else -float(exp[-1]["sumids"])
+                got = consumed[0]
+                if abs(got - want) > 1e-9 * max(1.0, abs(want)):
+                    rep.violation(f"impl:{label}:{mode}:{strat}:{sv}:value", f"{name}: loss {got!r} but the scored log-densities give {want!r} (average={cons['average']})", {"header": tr["hdr"]})
